@@ -10,6 +10,8 @@
 //                     {"c":"E"}                        the single-file parser returns an error
 //                     {"c":"P","incs":[[path,start,end],..]}  include statements with the range of their Meta
 //                     {"c":"panic"}
+//   front code      stdout: {"id": .., "name": ..} — `ReportCode::ParseFail.id()` / `.name()` of the current tree, the
+//                   code Model.Front.report_of gives every report of the Includes stage (parameters pf_id / pf_name)
 use serde_json::{json, Value};
 use verif_harness::{each_line, guarded, silence_panics};
 
@@ -44,8 +46,12 @@ fn main() {
     let args: Vec<String> = std::env::args().collect();
     match args.get(1).map(|s| s.as_str()) {
         Some("content") => each_line(content),
+        Some("code") => {
+            let code = program_structure::report_code::ReportCode::ParseFail;
+            println!("{}", json!({"id": code.id(), "name": code.name()}));
+        }
         _ => {
-            eprintln!("usage: front content");
+            eprintln!("usage: front content|code");
             std::process::exit(2);
         }
     }
